@@ -10,6 +10,7 @@ Lemmas/TableWriterDefs.lean; `Inv`, `RepLinks`, `RepTable`, `Fields.Ok` in Lemma
 `ObjWF`, `Tree` are C05's (Lemmas/GraphSer.lean).
 -/
 import FontVerif.Lemmas.TableWriter4
+import FontVerif.Lemmas.TableWriter5
 import FontVerif.Lemmas.FieldNested3
 import FontVerif.Props.C05
 import FontVerif.Props.C04
@@ -147,6 +148,25 @@ theorem writer_graph_wellformed (ids : Nat → Nat) (hinj : Function.Injective i
   obtain ⟨hinv', _, _, d, hm, _, _⟩ := addTable_spec ids hinj w hinv t hok
   exact ⟨graph_objWF ids _ hinv' _, objects_keys_nodup _, graph_closed ids _ hinv', graph_acyclic ids hinj _ hinv',
     Map.find?_some_mem_keys _ _ _ (objects_find _ hinv'.nodup d _ hm)⟩
+
+/-- **The packer's sorts never hit their cycle panic on a graph the writer built.**  The graph `TableWriter::make_graph`
+builds for ANY value tree has distinct ids, is closed under its offsets, acyclic, and every object is reachable from the
+root (nothing is written that is not a descendant of the root) — the hypotheses of C05's `sorts_return_on_acyclic`, all
+proved here — so `sort_kahn` and `sort_shortest_distance` return on it (no "cycle or something?" panic, loops within
+their budgets). -/
+theorem writer_graph_sorts_return (ids : Nat → Nat) (hinj : Function.Injective ids) (t : Table) (hok : t.Ok) :
+    (∀ k ∈ (makeGraph ids t).objects.keys, Reach (makeGraph ids t) (makeGraph ids t).root k) ∧
+    (∃ g', sortKahn (makeGraph ids t) = some g') ∧ (∃ g', sortShortest (makeGraph ids t) = some g') := by
+  obtain ⟨hinv, _, _, _⟩ := addTable_spec ids hinj (Writer.init 0) (inv_init ids 0) t hok
+  have hreach : ∀ k ∈ (addTable ids t (Writer.init 0)).2.tables.objects.keys,
+      Reach (Graph.fromObjects (addTable ids t (Writer.init 0)).2.tables.objects (addTable ids t (Writer.init 0)).1)
+        (addTable ids t (Writer.init 0)).1 k := by
+    intro k hk
+    obtain ⟨kv, hkv, rfl⟩ := List.mem_map.mp hk
+    obtain ⟨d, hd, _⟩ := objects_mem _ kv hkv
+    exact reach_of_sreach ids _ hinv _ (addTable_reach ids hinj 0 t hok (d, kv.1) hd)
+  exact ⟨hreach, C05.sorts_return_on_acyclic _ _ (objects_keys_nodup _) (graph_closed ids _ hinv) hreach
+    (graph_acyclic ids hinj _ hinv)⟩
 
 /-- non-vacuity of `Table.Ok` (and of everything that assumes it) -/
 example : (⟨.other, .bytes [7] (.link 2 .other (.bytes [1, 2] (.link 4 .other (.bytes [9] .nil) .nil)) (.null 2 .nil))⟩ :
